@@ -7,6 +7,7 @@ Model: TdModel/Model/C01.lean (`checkGap` regenerated from the Go source, `gapBu
 qts, seq, or one channel's pts); `Sys` is any number of boxes.
 -/
 import TdModel.Lemmas.C01
+import TdModel.Lemmas.C01Prog
 
 namespace TdModel.C01
 
@@ -21,6 +22,30 @@ theorem checkGap_classification (l r c : Int) :
 /-- The regenerated result codes are the three distinct iota values. -/
 theorem gap_codes : Facts.C01.gapApply = 1 ∧ Facts.C01.gapIgnore = 2 ∧ Facts.C01.gapRefetch = 3 := by
   decide
+
+/-- **The control structure of `sequenceBox.Handle`, `sequenceBox.applyPending` (with its loop)
+and `gapBuffer.Consume` (its loop body), regenerated from the Go AST, is the expected one**: the
+same statements and conditions, in the same order and nesting, with the same returns, `continue`
+and `break`.  (`Lemmas/C01Prog.lean`: the interpreter run on the expected programs is the model
+`handle` / `applyPending` / `consume` that every theorem below is about.) -/
+theorem programs_regenerated : regenProgs = expProgs ∧ Facts.C01.consumeTailProg = [6] := by decide
+
+/-- The small helpers the programs call, pinned by source text. -/
+theorem helpers_src :
+    Facts.C01.updStartSrc = "{ return u.State - u.Count }" ∧ Facts.C01.updEndSrc = "{ return u.State }" ∧
+    Facts.C01.gapsEnableSrc = "{ if len(b.gaps) > 0 { panic(\"unreachable\") } b.gaps = append(b.gaps, gap{from, to}) }" ∧
+    Facts.C01.gapsHasSrc = "{ return len(b.gaps) > 0 }" ∧ Facts.C01.gapsClearSrc = "{ b.gaps = make([]gap, 0, 1) }" ∧
+    Facts.C01.setStateSrc = "{ old := s.state s.state = state s.log.Debug(context.Background(), \"State changed\", log.Int(\"old\", old), log.Int(\"new\", state), log.String(\"reason\", reason), ) }" :=
+  ⟨rfl, rfl, rfl, rfl, rfl, rfl⟩
+
+/-- **The model follows the code**: one op of the box, computed by interpreting the programs
+regenerated from the current source, is one op of the model. -/
+theorem step_follows_code (b : Box) (op : Op) : stepI regenProgs b op = step b op := by
+  rw [programs_regenerated.1]; exact stepI_eq b op
+
+/-- … in particular `Consume`. -/
+theorem consume_follows_code (gaps : List Gap) (u : Upd) : consumeI regenProgs.consumeBody gaps u = consume gaps u := by
+  rw [programs_regenerated.1]; exact consumeI_eq gaps u
 
 /-- The fast gap timeout is 500 ms. -/
 theorem fastgap_is_500ms : Facts.C01.fastgapTimeoutNs = 500 * 1000 * 1000 := by decide
